@@ -113,6 +113,8 @@ Next == Connect \/ Act \/ Step \/ ProbeClose \/ Crash
 Spec == Init /\ [][Next]_vars
 FairSpec == Spec /\ WF_vars(Connect) /\ WF_vars(Act) /\ WF_vars(Step)
 
+(* everything but the crash counter: with this VIEW and a bound far above the diameter TLC covers ANY number of crashes *)
+NoCrashCount == <<dir, cfg, meta, metaVal, edb, tmp, tmpVal, prog, pc, snap, phase>>
 Usable == phase \notin {"unusable", "stuck"}
 (* after a crash the reported state is the state before or after the interrupted step: never beyond what is durable *)
 ReportedDurable == (phase = "act" /\ snap = 2) => (edb = "full" /\ cfg = "full")
